@@ -10,6 +10,7 @@
 From Coq Require Import String.
 From Coq Require Import List NArith ZArith Bool Permutation.
 From SeataV Require Import Remoting.ProcessorModel Remoting.ProcessorProofs Remoting.ProcessorGo Gen.DispatchTable.
+From SeataV Require Remoting.FuturesModel Gen.FuturesCfg.
 Import ListNotations.
 Open Scope string_scope.
 
@@ -82,6 +83,14 @@ Theorem C15_independent : forall mgrs (s s' : stream) out out',
   Permutation s s' -> merge (per_request go_dispatch mgrs s) out -> merge (per_request go_dispatch mgrs s') out' ->
   Permutation out out'.
 Proof. exact go_independent. Qed.
+
+(* ... nor do the client's own pending requests influence a reply: `process` has no access to the
+   pending-request table, the translator checks that nothing between SendAsyncResponse and WritePkg
+   may give up except for a missing / closed session (obligation above), and in the C14 model of that
+   table a response send under ANY id — also the id of a pending client request — is the identity *)
+Theorem C15_reply_ignores_pending_table : forall (s : FuturesModel.st) id wf,
+  FuturesModel.step FuturesCfg.go_futures_cfg s (FuturesModel.EWrite id wf) = s.
+Proof. exact go_reply_ignores_pending_table. Qed.
 
 (* ---- non-vacuity: a mixed stream (AT commit answered, TCC rollback whose manager
    fails with the retryable status (reported, result code Failed), TCC commit failing
